@@ -203,6 +203,13 @@ def run_race(pid, fam, tier, seed, outdir):
     try:
         res = json.load(open(resf))
     except Exception as e:  # noqa
+        if races or "fatal error: concurrent map" in err:
+            # the Go runtime itself stopped the process on an unsynchronised access to shared state: that is the failing schedule
+            i = err.find("fatal error: concurrent map")
+            r["results"][0] = ("fail", ["data_race"])
+            r["details"][0] = ("%d race report(s); the runtime aborted the stress run (exit %s)\n" % (races, p.returncode)) + err[max(i, 0):max(i, 0) + 6000]
+            r["meta"] = dict(cases=0, distinct_nontrivial=0, family="race", workers=workers, iterations=iters, race_reports=races, samples=[])
+            return r
         r["errors"].append("race harness produced no result (exit %s): %s" % (p.returncode, err[-1500:]))
         return r
     tags = []
